@@ -3,7 +3,7 @@
    memory_pool_collection; implementation logs (results, ranges handed to the lists via the guarded insert
    hook, upstream calls, capacity figures after every operation) are replayed against acc_op. *)
 From Coq Require Import ZArith List Bool.
-From FM Require Import FixedStack SmallCarve PoolSpec SlotProofs ListLib PoolSpecProofs OrderedList OrderedListProofs.
+From FM Require Import FixedStack SmallCarve PoolSpec SlotProofs ListLib PoolSpecProofs OrderedList OrderedListProofs UnorderedList UnorderedListProofs.
 Import ListNotations.
 Local Open Scope Z_scope.
 
@@ -71,6 +71,20 @@ Theorem C04_ordered_array_allocation_takes_listed_nodes : forall l bytes x l', O
   sorted (nodes l') /\ In x (nodes l) /\ n_of l' = (n_of l - nodes_for l bytes)%nat /\ (forall y, In y (nodes l') -> In y (nodes l)).
 Proof. exact alloc_array_inv. Qed.
 Print Assumptions C04_ordered_array_allocation_takes_listed_nodes.
+
+(* the unordered (singly linked) list: an array release puts back ceil(bytes / node size) nodes, each once; an array
+   allocation takes that many nodes that were all on the list and are consecutive in memory, none of which stays on it *)
+Theorem C04_unordered_array_release_returns_every_node : forall l m bytes, UInv l -> u_ns l < bytes ->
+  (forall x, In x (u_nodes l) -> x < m \/ m + Z.of_nat (u_nodes_for l bytes) * u_ns l <= x) ->
+  UInv (u_dealloc_array l m bytes) /\ u_capacity (u_dealloc_array l m bytes) = u_capacity l + Z.of_nat (u_nodes_for l bytes).
+Proof. exact u_dealloc_array_inv. Qed.
+Print Assumptions C04_unordered_array_release_returns_every_node.
+
+Theorem C04_unordered_array_allocation_takes_a_listed_run : forall l bytes x l', UInv l -> u_ns l < bytes -> u_alloc_array l bytes = Some (x, l') ->
+  UInv l' /\ u_capacity l' = u_capacity l - Z.of_nat (u_nodes_for l bytes) /\
+  (forall k, (k < u_nodes_for l bytes)%nat -> In (x + Z.of_nat k * u_ns l) (u_nodes l) /\ ~ In (x + Z.of_nat k * u_ns l) (u_nodes l')).
+Proof. exact u_alloc_array_inv. Qed.
+Print Assumptions C04_unordered_array_allocation_takes_a_listed_run.
 
 (* non-vacuity: an accepted history on a 16-byte list: insert 10 nodes, take a 3x8-byte array (2 nodes) and a node, give both back *)
 Example C04_nonvacuous :
